@@ -11,6 +11,8 @@ the strings that are not NFC-stable): `a>b` joined by `,`, `~` = empty.
   P <nfc> <text>                      URL(text) and the render/re-parse chain
   B <nfc> <netlocSep> <v6> <scheme> <user> <pw> <host> <port|-> <parts> <query> <fragment>
                                       a URL built from components, same chain
+  S <B-arguments> ; <B-arguments> ... several URL objects alive at once (independent in the model): their chains
+                                      joined by ` || `
   L <nfc> <withText> <defaultScheme> <schemes> <tail> <pre> <match> <pre> <match> ...
                                       the loop of find_all_links over the given regex matches
 Chain = `descr(u) | descr(URL(to_text(True))) | descr(URL(to_text(False)))`, where
@@ -143,6 +145,28 @@ def pairs? : List String → Option (List (Text × Text))
     | some a, some b, some l => some ((a, b) :: l)
     | _, _, _ => none
 
+/-- a URL built from components: the chain of its renderings and re-parses -/
+def handleB : List String → String
+  | [tbl, ns, v6, scheme, user, pw, host, port, parts, query, frag] =>
+    match nfcTable? tbl, text? scheme, text? user, text? pw, text? host, texts? parts, query? query, text? frag with
+    | some tbl, some scheme, some user, some pw, some host, some parts, some query, some frag =>
+      match (if port = "-" then some none else port.toInt?.map some) with
+      | some port =>
+        chain (mkEnv tbl)
+          { scheme := scheme, netlocSep := ns = "1", username := user, password := pw,
+            family := if v6 = "1" then .inet6 else .none, host := host, port := port,
+            pathParts := if parts.isEmpty then [[]] else parts, query := query, fragment := frag }
+      | none => "bad-op"
+    | _, _, _, _, _, _, _, _ => "bad-op"
+  | _ => "bad-op"
+
+/-- split a word list at every occurrence of the separator word -/
+def splitAt (ws : List String) (sep : String) : List (List String) :=
+  ws.foldr (fun w acc =>
+    match acc with
+    | cur :: rest => if w = sep then [] :: cur :: rest else (w :: cur) :: rest
+    | [] => [[w]]) [[]]
+
 def handle (line : String) : String :=
   match words line with
   | ["Q", c, tbl, t] =>
@@ -161,17 +185,10 @@ def handle (line : String) : String :=
       | .ok u => chain (mkEnv tbl) u
       | .error e => "!" ++ errName e
     | _, _ => "bad-op"
-  | ["B", tbl, ns, v6, scheme, user, pw, host, port, parts, query, frag] =>
-    match nfcTable? tbl, text? scheme, text? user, text? pw, text? host, texts? parts, query? query, text? frag with
-    | some tbl, some scheme, some user, some pw, some host, some parts, some query, some frag =>
-      match (if port = "-" then some none else port.toInt?.map some) with
-      | some port =>
-        chain (mkEnv tbl)
-          { scheme := scheme, netlocSep := ns = "1", username := user, password := pw,
-            family := if v6 = "1" then .inet6 else .none, host := host, port := port,
-            pathParts := if parts.isEmpty then [[]] else parts, query := query, fragment := frag }
-      | none => "bad-op"
-    | _, _, _, _, _, _, _, _ => "bad-op"
+  | "B" :: args => handleB args
+  | "S" :: args =>
+    let outs := (splitAt args ";").map handleB
+    if outs.contains "bad-op" then "bad-op" else " || ".intercalate outs
   | "L" :: tbl :: wt :: ds :: schemes :: tail :: ms =>
     match nfcTable? tbl, text? ds, texts? schemes, text? tail, pairs? ms with
     | some tbl, some ds, some schemes, some tail, some ms =>
